@@ -1,9 +1,87 @@
 import HedVerif.Driver.Util
+import HedVerif.Model.Units
 open Lean
 namespace HedVerif.Driver.C11
-open HedVerif HedVerif.Driver
+open HedVerif HedVerif.Driver HedVerif.Units
 
-/-- requests `{"op":"c11.<name>", ...}` of property C11 (stub: none yet) -/
+structure UnitSchema where
+  mods : List Modifier
+  classes : List UnitClass
+
+initialize unitStore : IO.Ref (List (String × UnitSchema)) ← IO.mkRef []
+
+def decOf (j : Json) : Except String Dec := do
+  match ← asArr j with
+  | [m, e] => match m.getInt?, e.getInt? with
+    | .ok a, .ok b => pure ⟨a, b⟩
+    | _, _ => .error "dec must be [int,int]"
+  | _ => .error "dec must be [m,e]"
+
+def decOpt (j : Json) (k : String) : Except String (Option Dec) :=
+  match j.getObjVal? k with
+  | .ok Json.null => pure none
+  | .ok v => do pure (some (← decOf v))
+  | .error _ => pure none
+
+def unitOf (j : Json) : Except String UnitDef := do
+  pure ⟨← getStr j "name", ← getBool j "isSymbol", ← getBool j "isSI", ← getBool j "isPrefix",
+        ← decOpt j "factor", ← getStr j "plural"⟩
+
+def classOf (j : Json) : Except String UnitClass := do
+  let d := match j.getObjVal? "default" with
+    | .ok (Json.str s) => some s.toList
+    | _ => none
+  pure ⟨← getStr j "name", ← (← getArr j "units").mapM unitOf, d⟩
+
+def modOf (j : Json) : Except String Modifier := do
+  pure ⟨← getStr j "name", ← getBool j "forSymbol", ← getBool j "forName", ← decOf (← getVal j "factor")⟩
+
+def decJson (d : Dec) : Json := jarr [jint d.m, jint d.e]
+
+def issueName : Issue → String
+  | .unitsInvalid => "UNITS_INVALID" | .unitsMissing => "UNITS_MISSING" | .valueInvalid => "VALUE_INVALID"
+
+/-- evaluates `Units.Functional` on a class dictionary -/
+def functional (tbl : List Derived) : Bool :=
+  tbl.all fun a => tbl.all fun b => a.key != b.key || (a.unit == b.unit && a.modFactor == b.modFactor)
+
+def handleIO (op : String) (j : Json) : Option (IO (Except String Json)) :=
+  match op with
+  | "c11.schema" => some do
+      match (do
+        let name ← getString j "name"
+        let mods ← (← getArr j "mods").mapM modOf
+        let classes ← (← getArr j "classes").mapM classOf
+        pure (name, mods, classes) : Except String _) with
+      | .error e => pure (.error e)
+      | .ok (name, mods, classes) =>
+        unitStore.modify fun st => (name, ⟨mods, classes⟩) :: st.filter (·.1 != name)
+        pure (.ok (jobj [("classes", jarr (classes.map fun c =>
+          jobj [("name", jstr c.name), ("derived", jnat (deriveClass mods c).length),
+                ("functional", jbool (functional (deriveClass mods c))),
+                ("emptyKey", jbool (lookupClass mods c foldAsciiU [] |>.isSome))]))]))
+  | "c11.eval" => some do
+      match (do pure (← getString j "schema", ← (← getArr j "classes").mapM asStr, ← getBool j "numeric",
+                      ← getStr j "ext") : Except String _) with
+      | .error e => pure (.error e)
+      | .ok (name, cnames, numeric, ext) =>
+        let st ← unitStore.get
+        match st.find? (·.1 == name) with
+        | none => pure (.error s!"unit schema {name} not installed")
+        | some (_, us) =>
+          let classes := cnames.filterMap fun n => us.classes.find? (·.name == n)
+          let (sv, m) := stripped us.mods classes foldAsciiU ext
+          let v := valueAsDefault us.mods classes foldAsciiU ext
+          pure (.ok (jobj [
+            ("stripped", jstr sv), ("unit", jopt (fun (x : Match) => jstr x.unitText) m),
+            ("issues", jarr ((check us.mods classes foldAsciiU numeric ext).map fun i => Json.str (issueName i))),
+            ("value", match v with
+              | .value d => jobj [("v", decJson d)]
+              | .absent => Json.str "absent"
+              | .raises w => jobj [("raises", jstr w)])]))
+  | _ => none
+where foldAsciiU (s : Str) : Str := s.map Char.toLower
+
 def handle (_op : String) (_j : Json) : Option (Except String Json) := none
 
 end HedVerif.Driver.C11
